@@ -261,6 +261,9 @@ func runOne(r *sim.Run) {
 	if ru.g.bigStatistics {
 		r.Count("probe:genesis_statistics_with_large_numbers", 1)
 	}
+	if ru.g.alwaysAcc {
+		r.Count("probe:always_accumulate_service_in_genesis", 1)
+	}
 	if ru.g.permutedSets {
 		r.Count("probe:validator_sets_in_different_orders", 1)
 	}
